@@ -719,57 +719,85 @@ STR_TAIL = 50                                  # optional fixed tail of 50 x "a"
 CP = z3.BitVecSort(21)
 
 class StrCell:
-    """Bounded symbolic string: n <= K free code points followed by an optional
-    tail of 50 'a' (so lengths 0..K and K+50: both sides of dataiter's 50-char switch)."""
-    __slots__ = ("n", "ch", "tail")
-    def __init__(self, n, ch, tail):
+    """Bounded symbolic string:  head + rest
+       head: n <= K free code points;
+       rest (only when n == K):  ""  |  "a"*50  |  "a"*50 + one free code point (sfx)  |  "a"*48 (`cut`: what remains of a
+       long string truncated to 50 characters, K = 2).
+    Lengths 0..K, K+50, K+51 (and 50 for cut cells): both sides of dataiter's 50-character switch, and pairs of
+    long strings that differ only beyond the 50th character."""
+    __slots__ = ("n", "ch", "tail", "sfx", "cut")
+    def __init__(self, n, ch, tail, sfx=None, cut=None):
         self.n = n; self.ch = ch; self.tail = tail
+        self.sfx = sfx if sfx is not None else z3.BitVecVal(0, 21)
+        self.cut = cut if cut is not None else z3.BoolVal(False)
     @staticmethod
     def sym(name, allow_tail=True, c=None):
         c = c or ctx()
         s = StrCell(z3.BitVec(name + "_n", 8), [z3.BitVec(f"{name}_c{j}", 21) for j in range(STR_K)],
-                    z3.Bool(name + "_t") if allow_tail else z3.BoolVal(False))
+                    z3.Bool(name + "_t") if allow_tail else z3.BoolVal(False),
+                    z3.BitVec(name + "_s", 21) if allow_tail else z3.BitVecVal(0, 21))
         c.assume(z3.ULE(s.n, STR_K))
+        def okcp(x): return z3.And(z3.UGE(x, 1), z3.ULE(x, 0x10FFFF), z3.Or(z3.ULT(x, 0xD800), z3.UGT(x, 0xDFFF)))
         for j in range(STR_K):
-            ok = z3.And(z3.UGE(s.ch[j], 1), z3.ULE(s.ch[j], 0x10FFFF),
-                        z3.Or(z3.ULT(s.ch[j], 0xD800), z3.UGT(s.ch[j], 0xDFFF)))
-            c.assume(z3.If(z3.UGT(s.n, j), ok, s.ch[j] == 0))
+            c.assume(z3.If(z3.UGT(s.n, j), okcp(s.ch[j]), s.ch[j] == 0))
         c.assume(z3.Implies(s.tail, s.n == STR_K))
+        if allow_tail:
+            c.assume(z3.If(s.tail, z3.Or(s.sfx == 0, okcp(s.sfx)), s.sfx == 0))
         return s
     @staticmethod
     def lit(s):
-        tail = len(s) > STR_K
-        if tail and s[STR_K:] != "a" * STR_TAIL:
-            raise ModelGap(f"string literal {s!r} outside the bounded string domain")
-        head = s[:STR_K]
-        if any(ord(c) == 0 for c in head):
+        head = s[:STR_K]; rest = s[STR_K:]
+        if any(ord(c) == 0 for c in s):
             raise ModelGap("NUL in string literal")
+        tail = False; sfx = 0; cut = False
+        if rest == "": pass
+        elif rest == "a" * STR_TAIL: tail = True
+        elif len(rest) == STR_TAIL + 1 and rest[:STR_TAIL] == "a" * STR_TAIL: tail = True; sfx = ord(rest[-1])
+        elif rest == "a" * (STR_TAIL - STR_K): cut = True
+        else: raise ModelGap(f"string literal {s!r} outside the bounded string domain")
         return StrCell(z3.BitVecVal(len(head), 8),
                        [z3.BitVecVal(ord(head[j]) if j < len(head) else 0, 21) for j in range(STR_K)],
-                       z3.BoolVal(tail))
+                       z3.BoolVal(tail), z3.BitVecVal(sfx, 21), z3.BoolVal(cut))
     def eq(self, o):
-        return z3.And(self.n == o.n, self.tail == o.tail, *[a == b for a, b in zip(self.ch, o.ch)])
+        return z3.And(self.n == o.n, self.tail == o.tail, self.sfx == o.sfx, self.cut == o.cut, *[a == b for a, b in zip(self.ch, o.ch)])
+    def _rest_rank(self):
+        # "" < "a"*48 < "a"*50 < "a"*50 + c
+        return z3.If(self.cut, z3.BitVecVal(1, 8), z3.If(self.tail, z3.If(self.sfx == 0, z3.BitVecVal(2, 8), z3.BitVecVal(3, 8)), z3.BitVecVal(0, 8)))
     def lt(self, o):
-        res = z3.And(z3.Not(self.tail), o.tail)
+        ra, rb = self._rest_rank(), o._rest_rank()
+        res = z3.Or(z3.ULT(ra, rb), z3.And(ra == 3, rb == 3, z3.ULT(self.sfx, o.sfx)))     # equal heads of full length
         for j in reversed(range(STR_K)):
             ae, be = z3.ULE(self.n, j), z3.ULE(o.n, j)
             res = z3.If(z3.And(ae, be), z3.BoolVal(False), z3.If(ae, z3.BoolVal(True), z3.If(be, z3.BoolVal(False),
                   z3.If(self.ch[j] == o.ch[j], res, z3.ULT(self.ch[j], o.ch[j])))))
         return res
     def length(self):
-        return z3.ZeroExt(56, self.n) + z3.If(self.tail, z3.BitVecVal(STR_TAIL, 64), z3.BitVecVal(0, 64))
+        return z3.ZeroExt(56, self.n) + z3.If(self.cut, z3.BitVecVal(STR_TAIL - STR_K, 64), z3.If(self.tail, z3.BitVecVal(STR_TAIL, 64), z3.BitVecVal(0, 64))) + \
+            z3.If(self.sfx == 0, z3.BitVecVal(0, 64), z3.BitVecVal(1, 64))
     def is_empty(self):
         return self.n == 0
+    def truncated(self, width):
+        """the first `width` characters (fixed-width store); only the widths that occur are modelled"""
+        if width >= STR_K + STR_TAIL + 1: return self
+        if width == STR_TAIL and STR_K <= STR_TAIL:
+            long = self.tail            # K + 50 (+1) characters -> K + 48
+            return StrCell(self.n, self.ch, z3.And(self.tail, z3.BoolVal(False)), z3.BitVecVal(0, 21), z3.Or(self.cut, long))
+        return None
     @staticmethod
     def ite(c, a, b):
-        return StrCell(z3.If(c, a.n, b.n), [z3.If(c, x, y) for x, y in zip(a.ch, b.ch)], z3.If(c, a.tail, b.tail))
+        return StrCell(z3.If(c, a.n, b.n), [z3.If(c, x, y) for x, y in zip(a.ch, b.ch)], z3.If(c, a.tail, b.tail),
+                       z3.If(c, a.sfx, b.sfx), z3.If(c, a.cut, b.cut))
     def concrete(self, m):
         n = m.eval(self.n, model_completion=True).as_long()
         s = "".join(chr(m.eval(self.ch[j], model_completion=True).as_long()) for j in range(n))
-        return s + ("a" * STR_TAIL if z3.is_true(m.eval(self.tail, model_completion=True)) else "")
+        if z3.is_true(m.eval(self.cut, model_completion=True)): s += "a" * (STR_TAIL - STR_K)
+        elif z3.is_true(m.eval(self.tail, model_completion=True)): s += "a" * STR_TAIL
+        sf = m.eval(self.sfx, model_completion=True).as_long()
+        return s + (chr(sf) if sf else "")
     def is_const(self):
-        return z3.is_bv_value(z3.simplify(self.n)) and all(z3.is_bv_value(z3.simplify(c)) for c in self.ch) and \
-            (z3.is_true(z3.simplify(self.tail)) or z3.is_false(z3.simplify(self.tail)))
+        def lit(e):
+            e = z3.simplify(e); return z3.is_bv_value(e) or z3.is_true(e) or z3.is_false(e)
+        return lit(self.n) and all(lit(c) for c in self.ch) and lit(self.tail) and lit(self.sfx) and lit(self.cut)
 
 FORMAT_HOOK = [None]    # when set: SymStr -> text conversions produce a placeholder token instead of forking over contents
 
@@ -806,7 +834,9 @@ class SymStr:
         c = ctx()
         n = c.concretise(z3.ZeroExt(56, self.c.n))
         s = "".join(chr(c.concretise(z3.ZeroExt(43, self.c.ch[j]))) for j in range(n))
-        return s + ("a" * STR_TAIL if c.branch(self.c.tail) else "")
+        s += "a" * (STR_TAIL - STR_K) if c.branch(self.c.cut) else ("a" * STR_TAIL if c.branch(self.c.tail) else "")
+        sf = c.concretise(z3.ZeroExt(43, self.c.sfx))
+        return s + (chr(sf) if sf else "")
     def __str__(self):
         if FORMAT_HOOK[0] is not None: return FORMAT_HOOK[0](self, "")
         return self.realise()
